@@ -70,8 +70,8 @@ uint64_t rs = 1;
 long long vclock = 0;                          // virtual ns since start
 const long long EPOCH_S = 1700000000LL;        // base of the virtual CLOCK_REALTIME
 void (*g_onVerdict)(Verdict, const char*) = nullptr;
-long preemptAt[4]; int npreempt = 0;           // FEW_PREEMPTIONS: decision indexes at which to preempt
-long pctChange[4]; int npct = 0;
+long preemptAt[8]; int npreempt = 0; int stayPerMille = 0;           // FEW_PREEMPTIONS: decision indexes at which to preempt
+long pctChange[8]; int npct = 0;
 int rrNext = 0;
 __thread int tl_id = -1;
 
@@ -157,7 +157,9 @@ int pickNext(bool mustSwitch) {
       return best;
     }
     case ROUND_ROBIN: { for (int q = 0; q < MAXT; ++q) { int k = (rrNext + q) % nth; if (th[k].state == T_RUNNABLE) { rrNext = k + 1; return k; } } return r[0]; }
-    default: return r[rnd() % (uint64_t)n];
+    default:
+      if (curRunnable && stayPerMille && (int)(rnd() % 1000) < stayPerMille) return cur;
+      return r[rnd() % (uint64_t)n];
   }
 }
 
@@ -290,8 +292,12 @@ void run(const Config& c, void (*fn)(void*), void* arg, void (*onVerdict)(Verdic
   vclock = (long long)(rnd() % 1000) * 1000000LL + (long long)(rnd() % 1000000);   // random phase within the second (deadline arithmetic has carries)
   nth = 0; nmx = ncv = nsm = 0; rrNext = 0; nlocs = 0;
   for (int i = 0; i < MAXT; ++i) th[i] = T();
-  npreempt = (int)(rnd() % 4); for (int i = 0; i < npreempt; ++i) preemptAt[i] = (long)(rnd() % 400);
-  npct = (int)(rnd() % 4); for (int i = 0; i < npct; ++i) pctChange[i] = (long)(rnd() % 400);
+  // the few preemption / priority change points lie within a horizon drawn per run (short runs and long scenarios both get
+  // their share), and the uniform strategy keeps the running thread with a per-run probability (runs of different lengths)
+  static const long HORIZON[] = {100, 400, 2000, 10000}; long horizon = HORIZON[rnd() % 4];
+  npreempt = (int)(rnd() % 6); for (int i = 0; i < npreempt; ++i) preemptAt[i] = (long)(rnd() % (uint64_t)horizon);
+  npct = (int)(rnd() % 6); for (int i = 0; i < npct; ++i) pctChange[i] = (long)(rnd() % (uint64_t)horizon);
+  static const int STAY[] = {0, 0, 500, 800, 950}; stayPerMille = STAY[rnd() % 5];
   th[0].state = T_RUNNABLE; th[0].prio = (int)(rnd() % 1000); __real_sem_init(&th[0].go, 0, 0); nth = 1; st.threads = 1; st.maxThreads = 1;
   tl_id = 0; cur = 0; g_active = true;
   fn(arg);
